@@ -1,6 +1,7 @@
 SPECIFICATION TSpec
 CONSTANTS
   Recorded = TRUE
+  Fault = "none"
   Policies = {}
   Ratings = {}
   ConvStarts = {}
